@@ -351,11 +351,22 @@ def _malformed(job, ctx):
             if only and only != [n, what, i]:
                 continue
             must = len(data) < 32 or (len(data) - 16) % 16 != 0
-            with kf as c:
+            # the malformed value is decrypted in an inner session that ends through the exception; the outer session of
+            # the same object must be unaffected by that
+            still = None
+            with kf as outer:
                 try:
-                    got = ("ok", c.decrypt(SecureValue("aes", data)))
+                    with kf as c:
+                        got = ("ok", c.decrypt(SecureValue("aes", data)))
                 except Exception as exc:  # noqa
                     got = ("raise", exc)
+                try:
+                    still = outer.decrypt(SecureValue("aes", val)) == p
+                except Exception as exc:  # noqa
+                    still = exc
+            if still is not True:
+                ctx.violation("C08|aes-decrypt|outer-session-broken", "after an inner session failed on a malformed value, the still-open outer session gives %r for a valid one" % (still,),
+                              _case(job, [n, what, i]), size=len(data))
             ctx.case((job["key"], n, what, i), "malformed:%s:%s" % (what, got[0] if must else "aligned-" + got[0]), True)
             ctx.transitions += 1
             ctx.states += 1
